@@ -137,7 +137,8 @@ Proof.
     + rewrite Ha in Hb. inv_bind Hb. inversion Hb; subst; simpl. exists a2. split; [reflexivity|].
       unfold resolve_sym in Hb1. destruct (sm_get n (s_terms st)) as [t|].
       * inversion Hb1; reflexivity.
-      * destruct (sm_get n (s_nts st)) as [nt|]; [|discriminate].
+      * destruct (existsb (String.eqb n) ["AUG"; "AUGL"]%string); [discriminate|].
+        destruct (sm_get n (s_nts st)) as [nt|]; [|discriminate].
         destruct ((rl =? 1) && (nd_idx nt =? pn)); [discriminate|]. inversion Hb1; reflexivity.
     + destruct Ha as [tn [i [Hi' Hg]]]. rewrite Hi' in Hb. inversion Hb; subst. rewrite Es. exists i. eauto.
 Qed.
